@@ -1036,6 +1036,15 @@ func (g *generator) stringOrIntegerFromEnum(v cue.Value, defVal any, opts []ast.
 			if referredObject, found := g.schema.LocateObject(refType); found && !referredObject.Type.IsEnum() {
 				return false, ast.Type{}, nil
 			}
+		} else {
+			// the object of another package isn't part of this schema: the CUE value tells
+			isEnum, err := isImplicitEnum(cue.Dereference(conjuncts[0]))
+			if err != nil {
+				return false, ast.Type{}, err
+			}
+			if !isEnum {
+				return false, ast.Type{}, nil
+			}
 		}
 
 		return true, ast.NewConstantReferenceType(refPkg, refType, val, opts...), nil
